@@ -1173,6 +1173,7 @@ func run(ctx *Ctx) *Result {
 			}
 		}
 	}
+	separationPass(res, cases)
 	if ctx.Replay == "" {
 		res.Notes = append(res.Notes, fmt.Sprintf("%d inputs x %d runs of the real drc (fresh processes)", len(cases), runs))
 	}
